@@ -45,7 +45,12 @@ def explain_case(model_dev, c, rec):
         if fr["kind"] in ("parse_error", "panic") or (fr["kind"] == "other" and not c.get("open")):
             bad.append("%s: opt.Optimise on %s: %s %s" % (mode, r["expr"], fr["kind"], fr.get("msg", "")))
             continue
+        if fr["kind"] == "rejected" and not any(w in fr.get("msg", "") for w in ("divide by zero", "mod by zero")):
+            bad.append("%s: %s: the optimiser rejects the program for something other than a zero divisor: %s" % (mode, r["expr"], fr.get("msg", "")[:120]))
+            continue
         if f["ovf"]:
+            if fr["kind"] == "rejected":
+                bad.append("%s: %s: optimiser rejects, the model sees no literal-zero divisor (value outside the model)" % (mode, r["expr"]))
             continue
         if f["rej"] != (fr["kind"] == "rejected"):
             bad.append("%s: %s: optimiser %s, model %s" % (mode, r["expr"], fr["kind"], "rejects" if f["rej"] else "accepts"))
